@@ -70,7 +70,7 @@ def ob_struct_alias(label, fn_rx, k, ncoord, extra=(), flag_off=None):
     return dict(H.stats(), paths=2, sample="%s: out == a and out distinct give the same %d coordinates as polynomials over the input's indeterminates" % (label, ncoord))
 
 
-def register(chk):
+def register(chk, heavy=True):
     import c06_loops
     import c07
     import c04_more
@@ -84,9 +84,10 @@ def register(chk):
     chk.add("G2::frobenius_map:out=a", ob_struct_alias, "G2::frobenius_map(.,1)", B + r"G2::frobenius_map\(.*\)", 1, 3, (1,))
     chk.add("G1Affine::negate:out=a", ob_struct_alias, "G1Affine::negate", B + r"Affine<" + B + r"Fq, .*>::negate\(.*\)", 0, 2, (), 96)
     chk.add("G2Affine::negate:out=a", ob_struct_alias, "G2Affine::negate", B + r"Affine<" + B + r"Fq2, .*>::negate\(.*\)", 1, 2, (), 192)
-    chk.add("G1::multiply_endomorphism:out=a", c06_loops.ob_endomorphism_loop, True)
-    for case in ("out", "zero", "pos", "neg"):
-        chk.add("G2::multiply_frobenius:out=a:first-digit-%s" % case, c06_loops.ob_frobenius_loop, case, True)
+    if heavy:
+        chk.add("G1::multiply_endomorphism:out=a", c06_loops.ob_endomorphism_loop, True)
+        for case in ("out", "zero", "pos", "neg"):
+            chk.add("G2::multiply_frobenius:out=a:first-digit-%s" % case, c06_loops.ob_frobenius_loop, case, True)
     chk.add("wnaf/doubleadd wrappers:out=base", c06_loops.ob_compose, True)
     chk.add("Fq12::exponentiate_gt:bases:out=a", c07.ob_gt_bases, True)
     chk.add("Fq12::exponentiate_gt:loop:out=a", c07.ob_gt_loop, True)
